@@ -290,6 +290,75 @@ fn check_py(s: &PySpec, idx_tag: u64) -> Result<(), String> {
     r
 }
 
+#[derive(Clone, Debug, Serialize, Deserialize, Hash)]
+pub struct IzSpec {
+    files: Vec<(String, crate::refzip::Content)>,
+    fd: bool,
+    fz: bool,
+    level: u8,
+    bzip2: bool,
+}
+
+fn iz_spec() -> BoxedStrategy<IzSpec> {
+    (proptest::collection::vec(("[a-z0-9_]{1,8}(/[a-z0-9_]{1,6}){0,2}", crate::refzip::content::content(20000)), 1..6), any::<bool>(), any::<bool>(), 0u8..=9, prop_oneof![3 => Just(false), 1 => Just(true)])
+        .prop_map(|(mut files, fd, fz, level, bzip2)| {
+            // unique, conflict-free paths
+            let mut seen = std::collections::HashSet::new();
+            files.retain(|(n, _)| {
+                let ok = !seen.iter().any(|s: &String| s.starts_with(&format!("{n}/")) || n.starts_with(&format!("{s}/")) || s == n);
+                if ok {
+                    seen.insert(n.clone());
+                }
+                ok
+            });
+            // Info-ZIP itself fails on `-0 -Z bzip2` (bzlib has no level 0)
+            IzSpec { files, fd, fz, level: if bzip2 && level == 0 { 1 } else { level }, bzip2 }
+        })
+        .boxed()
+}
+
+fn check_iz(s: &IzSpec) -> Result<(), String> {
+    let files: Vec<(String, Vec<u8>)> = s.files.iter().map(|(n, c)| (n.clone(), c.expand())).collect();
+    let mut flags = vec![format!("-{}", s.level)];
+    if s.fd {
+        flags.push("-fd".into());
+    }
+    if s.fz {
+        flags.push("-fz".into());
+    }
+    if s.bzip2 {
+        flags.push("-Z".into());
+        flags.push("bzip2".into());
+    }
+    let bytes = common::infozip_archive(&files, &flags)?;
+    let mut za = ZipArchive::new(Cursor::new(&bytes[..])).map_err(|e| format!("ZipArchive::new refused an Info-ZIP archive ({flags:?}): {e}"))?;
+    if za.len() != files.len() {
+        return Err(format!("len() {} != {} files archived", za.len(), files.len()));
+    }
+    for (i, (n, c)) in files.iter().enumerate() {
+        let mut f = za.by_index(i).map_err(|e| format!("entry {i}: {e}"))?;
+        let o = common::observe_file(&mut f, &[4096]);
+        if o.name != *n {
+            return Err(format!("entry {i}: name {:?} != {:?}", o.name, n));
+        }
+        if o.content.as_ref().map(|x| x == c) != Ok(true) {
+            return Err(format!("entry {i} ({n}): content differs or fails ({flags:?}): {:?}", o.content.as_ref().map(|x| x.len())));
+        }
+        if o.size != c.len() as u64 || o.crc != common::crc(c) {
+            return Err(format!("entry {i}: size/crc differ"));
+        }
+    }
+    for (n, c) in &files {
+        let mut f = za.by_name(n).map_err(|e| format!("by_name({n}): {e}"))?;
+        let mut v = Vec::new();
+        f.read_to_end(&mut v).map_err(|e| format!("by_name({n}) read: {e}"))?;
+        if v != *c {
+            return Err(format!("by_name({n}) content differs"));
+        }
+    }
+    Ok(())
+}
+
 pub fn run(ctx: &mut Ctx) {
     ctx.rule("specs: proptest-generated specs for the independent builder (<=24 entries; stored/deflate/bzip2/zstd and unsupported method ids; data descriptors in 4 shapes; ZIP64 values forced in any subset, before/after other extras, local ZIP64; unknown extras; comments; DOS/Unix/other systems; any attributes and DOS time bits; shuffled central order, gaps, junk prefix, trailing garbage, ZIP64 end records); the spec is the model for every accessor and the content. Non-trivial = uses at least one such layout freedom. cpython: archives produced by CPython zipfile (seekable and unseekable sinks, force_zip64, prefix).");
     ctx.assume("the independent builder is validated against CPython zipfile and unzip -t in the self-test");
@@ -317,6 +386,18 @@ pub fn run(ctx: &mut Ctx) {
             Ok(Ok(())) => Verdict::Pass,
             Ok(Err(m)) => Verdict::Fail(m),
             Err(p) => Verdict::Fail(format!("PANIC while reading a well-formed archive: {p}")),
+        }
+    });
+    // third producer: Info-ZIP zip (data descriptors -fd, forced ZIP64 -fz, store/deflate/bzip2)
+    let niz = ctx.q(150, 3000);
+    ctx.explore::<IzSpec>("infozip", niz, &iz_spec, &|s: &IzSpec, info: &mut Info| {
+        info.nontrivial = !s.files.is_empty() && (s.fd || s.fz || s.files.len() > 1);
+        info.label_if(s.fd, "-fd");
+        info.label_if(s.fz, "-fz");
+        match catch(|| check_iz(s)) {
+            Ok(Ok(())) => Verdict::Pass,
+            Ok(Err(m)) => Verdict::Fail(m),
+            Err(p) => Verdict::Fail(format!("PANIC: {p}")),
         }
     });
     let npy = ctx.q(300, 5000);
